@@ -174,6 +174,9 @@ def run():
             ('Debounce', 'D = 100\n Gaps = {40, 260}\n MaxEvents = 3\n ReadNotTake = TRUE', 'INVARIANTS InOrderNoneTwice', 'InOrderNoneTwice'),
             ('SampleConc', 'NItems = 2\n NTicks = 2\n Completes = TRUE\n ReadNotTake = TRUE\n TwoStepTake = FALSE', 'INVARIANTS InOrderNoneTwice', 'InOrderNoneTwice'),
             ('SampleConc', 'NItems = 2\n NTicks = 2\n Completes = TRUE\n ReadNotTake = FALSE\n TwoStepTake = TRUE', 'INVARIANTS FreshIsInSlot', 'FreshIsInSlot'),
+            ('TimedSources', 'Kind = "interval"\n D = 100\n UGrid = {55, 175, 250}\n Horizon = 450\n Gaps = {40, 90, 260}\n MaxEvents = 2\n EmitThenSleep = TRUE\n NoPoll = FALSE', 'INVARIANTS IntervalExact', 'IntervalExact'),
+            ('TimedSources', 'Kind = "delay"\n D = 100\n UGrid = {55, 175, 250}\n Horizon = 450\n Gaps = {40, 90, 260}\n MaxEvents = 2\n EmitThenSleep = TRUE\n NoPoll = FALSE', 'INVARIANTS DelayExact', 'DelayExact'),
+            ('TimedSources', 'Kind = "interval"\n D = 100\n UGrid = {55, 175, 250}\n Horizon = 450\n Gaps = {40, 90, 260}\n MaxEvents = 2\n EmitThenSleep = FALSE\n NoPoll = TRUE', 'INVARIANTS ExitWithinOnePeriod', 'ExitWithinOnePeriod'),
             ('RefCountConc', 'Leavers = {1, 2}\n Stayers = {3}\n Recheck = FALSE', 'INVARIANTS PresentMeansConnected', 'PresentMeansConnected'),
             ('ZipConc', 'NInputs = 2\n NItems = 2\n EmitUnderLock = FALSE', 'INVARIANTS RowsInOrder', 'RowsInOrder'),
             ('SubjectConc', 'Kind = "replay"\n NValues = 2\n WithUnsub = FALSE', 'INVARIANTS NoDup', 'NoDup'),
